@@ -287,3 +287,6 @@ impl<T> fmt::Debug for RecursiveDirectory<T> {
             .finish()
     }
 }
+
+#[cfg(kani)]
+include!(concat!(env!("ASSETS_MANAGER_VERIF"), "/incrate/dirs.rs"));
